@@ -8,6 +8,7 @@ import (
 	"bytes"
 	"fmt"
 	"io"
+	"strings"
 	"time"
 
 	"github.com/markkurossi/mpc/ot"
@@ -400,13 +401,69 @@ func (w *world) Run(t *rt.Tape, trace bool) *core.Result {
 
 	ea, eb := simnet.Pipe("A", "B", simnet.PipeConfig{AB: ab, BA: ba})
 	a.ep, b.ep = ea, eb
+	// One fault-free case in five takes its two Conns from the library's own network constructor
+	// (p2p.Create / Join / Connect, two parties, one connection) instead of NewConn: whatever the
+	// constructor does to the socket before it wraps it is part of the connection layer.
+	viaNetwork := !faultMode && ab.Cap != 0 && ba.Cap != 0 && t.Choose(rt.SGen, 5) == 0
+	var setupErr error
+	if viaNetwork {
+		res.Reach["conn.obtained-through-p2p.Network"]++
+	}
 
 	sides := []*side{a, b}
 	firstSide, secondSide := sides[first], sides[1-first]
 
 	rr := rt.Run(rt.Config{Trace: trace, NoProgress: core.NoProgressDefault}, t, func() {
-		a.conn = p2p.NewConn(ea)
-		b.conn = p2p.NewConn(eb)
+		if viaNetwork {
+			nt := simnet.Reset()
+			// the joiner (B) dials: its direction is the pipe's first
+			nt.NewPipeConfig = func(from, to string) simnet.PipeConfig { return simnet.PipeConfig{AB: ba, BA: ab} }
+			nwA, err := p2p.Create("hostA:9000", 2, 1)
+			if err != nil {
+				setupErr = err
+				return
+			}
+			var nwB *p2p.Network
+			done := rt.NewChan[error](2)
+			rt.GoParty("A", "setup", func() { done.Send(nwA.Connect()) })
+			rt.GoParty("B", "setup", func() {
+				var err error
+				if nwB, err = p2p.Join("hostA:9000", "hostB:9000", 1, 1); err == nil {
+					err = nwB.Connect()
+				}
+				done.Send(err)
+			})
+			for i := 0; i < 2; i++ {
+				if err := done.Recv(); err != nil && setupErr == nil {
+					setupErr = err
+				}
+			}
+			if setupErr != nil || len(nt.Conns) != 1 {
+				if setupErr == nil {
+					setupErr = fmt.Errorf("%d connections after a 2-party setup", len(nt.Conns))
+				}
+				return
+			}
+			for _, p := range nwA.Peers {
+				if p.ID == 1 && len(p.Conns) == 1 {
+					a.conn = p.Conns[0]
+				}
+			}
+			for _, p := range nwB.Peers {
+				if p.ID == 0 && len(p.Conns) == 1 {
+					b.conn = p.Conns[0]
+				}
+			}
+			if a.conn == nil || b.conn == nil {
+				setupErr = fmt.Errorf("the 2-party network has no connection between its parties")
+				return
+			}
+			ea, eb = nt.Conns[0].Server, nt.Conns[0].Client
+			a.ep, b.ep = ea, eb
+		} else {
+			a.conn = p2p.NewConn(ea)
+			b.conn = p2p.NewConn(eb)
+		}
 		for _, s := range sides {
 			s := s
 			rt.GoParty(s.name, "send", s.doSend)
@@ -441,6 +498,12 @@ func (w *world) Run(t *rt.Tape, trace bool) *core.Result {
 		})
 	})
 	core.Finish(res, rr)
+	if setupErr != nil {
+		// a network that does not form is C19's business
+		res.Discard = true
+		res.Reach["discard: the two-party network did not form: "+setupErr.Error()]++
+		return res
+	}
 	st := ea.Stats
 	res.Reach["pipe.short-reads"] += st.ShortReads
 	res.Reach["pipe.writer-blocked"] += st.WriterBlocked
@@ -498,7 +561,18 @@ func (w *world) Run(t *rt.Tape, trace bool) *core.Result {
 			return fail("receive-mismatch", s.recvErr)
 		}
 	}
-	if core.Stuck(rr) {
+	stuck := core.Stuck(rr)
+	if stuck && viaNetwork {
+		// the accept loops of the two networks wait for further connections for ever: that is what
+		// they are for; only other unfinished tasks mean that something did not terminate
+		stuck = false
+		for _, b := range rr.Blocked {
+			if !strings.Contains(b, ": accept host") {
+				stuck = true
+			}
+		}
+	}
+	if stuck {
 		return fail("did-not-terminate", fmt.Sprintf("%v; unfinished tasks: %v", rr.Outcome, rr.Blocked))
 	}
 	if secondSide.eofErr != "" {
